@@ -309,6 +309,7 @@ MEDDLY::reachset_tradf_factory <FWD>::build_new(forest* a, forest* b, forest* c)
 
                 unionOp = MEDDLY::build(UNION, c, c, c);
                 diffrOp = MEDDLY::build(DIFFERENCE, c, c, c);
+                if (!imageOp || !unionOp || !diffrOp) return nullptr;
                 return new reachset_frontier(imageOp, unionOp, diffrOp);
 
             default:
@@ -364,6 +365,7 @@ MEDDLY::reachset_tradnof_factory <FWD>::build_new(forest* a, forest* b, forest* 
                               : MEDDLY::build(PRE_IMAGE,  a, b, c);
 
                 unionOp = MEDDLY::build(UNION, c, c, c);
+                if (!imageOp || !unionOp) return nullptr;   // component operation not available for these forests
                 return new reachset_no_frontier(imageOp, unionOp);
 
             case range_type::INTEGER:
@@ -371,6 +373,7 @@ MEDDLY::reachset_tradnof_factory <FWD>::build_new(forest* a, forest* b, forest* 
                               : MEDDLY::build(PRE_IMAGE,  a, b, c);
 
                 unionOp = MEDDLY::build(DIST_MIN, c, c, c);
+                if (!imageOp || !unionOp) return nullptr;   // component operation not available for these forests
                 return new reachset_no_frontier(imageOp, unionOp);
 
             default:
@@ -384,6 +387,7 @@ MEDDLY::reachset_tradnof_factory <FWD>::build_new(forest* a, forest* b, forest* 
                           : MEDDLY::build(PRE_IMAGE,  a, b, c);
 
             unionOp = MEDDLY::build(MINIMUM, c, c, c);
+            if (!imageOp || !unionOp) return nullptr;   // component operation not available for these forests
             return new reachset_no_frontier(imageOp, unionOp);
         }
     }
